@@ -379,7 +379,9 @@ func checkConc(c Case) *ev.Violation {
 		return bad
 	}
 	// quiescent reads: force "the latest once registrations have finished"
-	for _, n := range ns {
+	rot := int(atomic.LoadInt64(&caseSeq)) % len(ns)
+	for i := range ns {
+		n := ns[(i+rot)%len(ns)]
 		d := decoration.Named(n)
 		v := 0
 		if d != decoration.EmptyDecoration {
@@ -444,11 +446,27 @@ func checkBurst(c Case) *ev.Violation {
 				}
 			}(g)
 		}
+		// readers look names up while they are being overwritten (whatever a lookup remembers must not outlive the overwrite)
+		var stopReaders int32
+		var rwg sync.WaitGroup
+		for r := 0; r < 2; r++ {
+			rwg.Add(1)
+			go func(r int) {
+				defer rwg.Done()
+				start.Wait()
+				for i := 0; atomic.LoadInt32(&stopReaders) == 0; i++ {
+					_ = decoration.Named(nm[(i*7+r+round)%G])
+				}
+			}(r)
+		}
 		start.Done()
 		wg.Wait()
+		atomic.StoreInt32(&stopReaders, 1)
+		rwg.Wait()
 		// registrations have finished: every lookup returns the latest, the listing has every name
 		want := deco(round*K + K - 1)
-		for g := 0; g < G; g++ {
+		for i := 0; i < G; i++ {
+			g := (i + round) % G // start somewhere else every round: a remembered lookup is displaced by the first other lookup
 			if got := decoration.Named(nm[g]); got != want {
 				return ev.V("round %d: after %d goroutines finished registering, Named(%q) has Horizontal %q, the latest registration was %q", round, G, nm[g], got.Horizontal, want.Horizontal)
 			}
